@@ -87,6 +87,7 @@ type c16Case struct {
 	Group    bool   `json:"in_group"`
 	Root     bool   `json:"group_prefix_is_root,omitempty"` // the enclosing group is Group("/")
 	Kind     string `json:"kind"`                           // subset | bad
+	Cache    int    `json:"route_cache_capacity,omitempty"` // > 0: the router caches dynamic matches (the probes are then issued twice, in two orders)
 }
 
 func c16Gen(tier string, emit func(c16Case)) {
@@ -99,6 +100,10 @@ func c16Gen(tier string, emit func(c16Case)) {
 						continue
 					}
 					emit(c16Case{Kind: "subset", Mask: mask, Uses: uses, Base: base, Group: grp, Thorough: tier == "thorough"})
+					if !grp {
+						// the same table on a router that caches dynamic matches (capacity 1 or 2: constant eviction)
+						emit(c16Case{Kind: "subset", Mask: mask, Uses: uses, Base: base, Thorough: tier == "thorough", Cache: 1 + (mask+bi)%2})
+					}
 					if grp && (mask+bi)%4 == 0 {
 						emit(c16Case{Kind: "subset", Mask: mask, Uses: uses, Base: base, Group: true, Root: true, Thorough: tier == "thorough"})
 					}
@@ -185,6 +190,9 @@ func c16Run(c c16Case, st *fw.Stats) []fw.Viol {
 	}
 	resPath := refmodel.Norm(refmodel.Norm(prefix, false)+refmodel.Norm(c.Base+resName, false), false)
 	desc := fmt.Sprintf("controller implementing %v (Uses=%v) Resource(%q) in group=%v", impl, c.Uses, c.Base, c.Group)
+	if c.Cache > 0 {
+		desc += fmt.Sprintf(" on a router with a route cache of capacity %d", c.Cache)
+	}
 
 	// expected table
 	var defs []refmodel.RouteDef
@@ -260,6 +268,9 @@ func c16Run(c c16Case, st *fw.Stats) []fw.Viol {
 			buf.Reset()
 			rec := &c16Rec{}
 			r := rux.New()
+			if c.Cache > 0 {
+				r = rux.New(rux.CachingWithNum(uint16(c.Cache)))
+			}
 			pv := try(func() {
 				ctl := c16New(c.Mask, c.Uses, rec)
 				if c.Group {
@@ -390,8 +401,24 @@ func c16CheckTable(r *rux.Router, c c16Case, desc string, impl []string, resPath
 func c16CheckRouter(r *rux.Router, rec *c16Rec, c c16Case, desc string, impl []string, resPath, resName string, tb *refmodel.Table, defAction []string, st *fw.Stats, add func(sig, msg string)) {
 	// (2) every method x probe path answers as the table says, and nothing else is reachable
 	probes := []string{resPath, resPath + "/create", resPath + "/7", resPath + "/7/edit", resPath + "/create/edit", resPath + "/7/x", "/", resPath + "x"}
+	type mp struct{ m, p string }
+	var seq []mp
 	for _, m := range refmodel.Methods {
 		for _, p := range probes {
+			seq = append(seq, mp{m, p})
+		}
+	}
+	if c.Cache > 0 {
+		// a second round, path-major and backwards: every request is repeated after the others had their turn in the cache
+		for pi := len(probes) - 1; pi >= 0; pi-- {
+			for mi := len(refmodel.Methods) - 1; mi >= 0; mi-- {
+				seq = append(seq, mp{refmodel.Methods[mi], probes[pi]})
+			}
+		}
+	}
+	{
+		for _, q := range seq {
+			m, p := q.m, q.p
 			st.Evals++
 			res := tb.Resolve(m, p)
 			rec.log = rec.log[:0]
@@ -435,7 +462,7 @@ var c16Spec = fw.Spec[c16Case]{
 	Workers: 1,
 	// the only nondeterminism is Go's map iteration order inside Resource (code under test): a confirmation replay may be retried
 	ReplayAttempts: 40,
-	Rule: "complete enumeration: all 128 subsets of the seven actions as controller method sets (generated types) x with/without Uses() (distinct middleware for every action, implemented or not) x base in {/, /api/, \"\"} x outside a group / inside Group(/g) / inside Group(/) (group middleware passed with spare capacity); the same controller (whose Uses() table is one shared map) registered twice; registration order inside Resource is Go map order: it is DRIVEN through the insertion order of the exported rux.RESTFulActions and OBSERVED from rux's own debug print, and registration is repeated until every permutation of the implemented actions (k<=4, thorough k<=6 on the plain base; all rotations of two base orders beyond) has been observed; " +
+	Rule: "complete enumeration: all 128 subsets of the seven actions as controller method sets (generated types) x with/without Uses() (distinct middleware for every action, implemented or not) x base in {/, /api/, \"\"} x outside a group / inside Group(/g) / inside Group(/) (group middleware passed with spare capacity) (+ outside a group on a router with a route cache of capacity 1 or 2, all probes issued twice in two orders); the same controller (whose Uses() table is one shared map) registered twice; registration order inside Resource is Go map order: it is DRIVEN through the insertion order of the exported rux.RESTFulActions and OBSERVED from rux's own debug print, and registration is repeated until every permutation of the implemented actions (k<=4, thorough k<=6 on the plain base; all rotations of two base orders beyond) has been observed; " +
 		"per observed order: Routes()/NamedRoutes() equal the documented table exactly, all 9 methods x 8 probe paths dispatch as the reference resolver says over that table (create never served by show, nothing else reachable), per-action middleware runs only for its action; non-pointer / non-struct / wrong-shaped controllers; non-trivial = a distinct (subset, order) registration",
 	Assume: []string{"runs single-threaded: RESTFulActions, the debug switch and the colour output are process-global", "Go's small-map iteration starts at a random offset of the insertion order; an order not seen within 400 draws is reported as a cap, never as a violation"},
 	Bounds: func(tier string) map[string]any {
